@@ -5,13 +5,14 @@ from .. import universe as U
 from .. import refunify as R
 from ..engine import Violation
 
-ANCHORS = UC.ANCHORS
-WITNESSES = {'all': ['top-level-anon', 'embedded-anon', 'sequence', 'with-prior']}
+ANCHORS = UC.ANCHORS + ['recreate_variables', 'next_solution']
+WITNESSES = {'all': ['top-level-anon', 'embedded-anon', 'sequence', 'with-prior', 'anon-in-head-or-query', 'anon-in-body']}
 OPTS = {'quick': {'selfcheck_mod': 60, 'budget_s': 240}, 'thorough': {'selfcheck_mod': 1000, 'budget_s': 2400}}
 BOUNDS = {
     'quick': '(a) every term T of the C06 universe with size <= 3 against `$_` in both operand orders, under the empty substitution and under 12 real priors; '
              '(b) every ordered pair of the C06 quick universe in which `$_` occurs (argument, list element, list tail), judged by the reference unifier; '
-             '(c) sequences X = $_ (either operand order) then X = T, compared with X = T alone, T of size <= 2, plus is_bound(X) after the first step',
+             '(c) sequences X = $_ (either operand order) then X = T, compared with X = T alone, T of size <= 2, plus is_bound(X) after the first step; '
+             '(d) programs: every head/goal pair of the C07 family in which `$_` occurs (fact fetched with get_rule, query built with make_query, unified both ways and run through the search), and 17 rule bodies using `$_` in calls, `=`, list patterns and under not, with 3 queries each (incl. t($_)), answers compared with the reference',
     'thorough': 'same with the C06 thorough universe (size(A)+size(B) <= 5) and T of size <= 3 in sequences',
 }
 OUTSIDE = c06.OUTSIDE
@@ -34,6 +35,24 @@ def cases(tier, seed):
         if U.size(t) > mx or U.has(t, '_') and t == ['_']: continue
         for order in (0, 1):
             out.append({'id': 'seq %d %s|%d' % (order, U.text(t), len(out)), 'fam': 'seq', 'T': t, 'order': order})
+    # programs using `$_` in heads and queries: the head/goal pairs of C07 in which `$_` occurs, through get_rule / make_query / the search
+    from . import c07
+    for c in c07.cases(tier, seed):
+        if c.get('fam') == 'hg' and (U.has(c['A'], '_') or U.has(c['B'], '_')):
+            c = dict(c); c['id'] = 'program ' + c['id']; out.append(c)
+    # ... and in bodies
+    from ..progs import V, A, C, L, I, gc, gb, AND, OR, NOT, U as UNI, X, Y, Z
+    from . import prog_common as PC
+    from .. import progs as P
+    AN = ('anon',)
+    bodies = [gc('r', X, AN), gc('r', AN, X), AND(gc('r', AN, X), gc('p', AN)), AND(UNI(X, AN), UNI(X, A('b'))), AND(UNI(AN, X), gc('q', X)), gc('pr', AN, X, Z),
+              AND(gc('pr', X, AN, Z), UNI(X, A('a'))), gc('member', AN, L(X, A('k'))), AND(gc('l', L(AN, tail=AN)), gc('p', X)), AND(gc('l', L(X, tail=AN))),
+              AND(gc('h', L(AN, tail=Y)), UNI(Y, L(X)), gc('p', X)), AND(gc('p', X), NOT(gc('r', X, AN))), OR(UNI(X, AN), gc('q', X)), AND(gc('eq', AN, X), gc('p', X)),
+              AND(gc('eq', X, AN), gc('eq', AN, X), UNI(X, I(1))), gc('any2', X, AN), AND(gc('u', X), gc('any', X))]
+    for b in bodies:
+        cl = [(C('t', X), b)]
+        for q in (C('t', X), C('t', A('b')), C('t', AN)):
+            out.append({'id': 'body %s ?- %s|%d' % (P.ctext(cl[0]), P.ttext(q), len(out)), 'fam': 'prog', 'clauses': PC.jsonable(tuple(cl)), 'query': PC.jsonable(q)})
     return out
 
 
@@ -83,6 +102,16 @@ def run_seq(drv, case):
 
 
 def run(drv, case):
+    if case['fam'] == 'hg':
+        from . import c07
+        info = c07.run_hg(drv, case)
+        info['tags'] = info.get('tags', []) + ['anon-in-head-or-query']
+        return info
+    if case['fam'] == 'prog':
+        from . import prog_common as PC
+        run_, ref, tags, desc = PC.run_and_compare(drv, case, check_output=False)
+        if run_ is None: return {'tags': tags, 'nontrivial': False}
+        return {'tags': tags + ['anon-in-body'], 'note': desc}
     if case['fam'] == 'top': return run_top(drv, case)
     if case['fam'] == 'seq': return run_seq(drv, case)
     info = UC.check_mgu(drv, case)
